@@ -680,7 +680,8 @@ func TestVerif_C16(t *testing.T) {
 	}
 }
 
-// an accepted write to a target that had no status key leaves an explicit "status": null behind
+// regression tag: an accepted write to a target that had no status key leaves an explicit "status": null
+// behind (repaired in the decorator; the tag must no longer occur, and never without a PROPFAIL)
 func c16WritesExplicitNullStatus(c *c16CaseRec) bool {
 	for _, r := range c.Rounds {
 		for _, e := range r.Events {
